@@ -91,6 +91,19 @@ Definition hash_reconcile (current_version h : string) (pool_ann : option string
                    else mkAnn (if a_drifted c then a_hash c else Some h) (Some current_version) (a_drifted c)) claims
    else claims).
 
+(* the order of operations on one pool before a claim is built: template edits (the hash of the edited template is
+   [h]) and hash-controller reconciles, in any interleaving. NewNodeClaimTemplate reads the pool OBJECT: the claim is
+   stamped with Hash() of the template it is built from and the current version, never with the controller's stamp. *)
+Inductive pool_op := PEdit (h : string) | PHashCtl.
+Record pool_state := mkPS { ps_template_hash : string; ps_ann : option string * option string }.
+Definition pool_step (ver : string) (s : pool_state) (o : pool_op) : pool_state :=
+  match o with
+  | PEdit h => mkPS h (ps_ann s)
+  | PHashCtl => mkPS (ps_template_hash s) (fst (hash_reconcile ver (ps_template_hash s) (ps_ann s) []))
+  end.
+Definition build_stamp (ver : string) (s : pool_state) : option string * option string :=
+  (Some (ps_template_hash s), Some ver).
+
 (* ---------------------------------------------------------------- drift *)
 (* areStaticFieldsDrifted *)
 Definition static_drifted (np_h np_v nc_h nc_v : option string) : bool :=
